@@ -197,7 +197,7 @@ CLAIMED = {
         tech=PBT + "an independent twisted-Edwards reference (complete addition law); round-trip and reference-construction oracles"),
     "C18": dict(
         text="Exhaustive enumeration of every identifier accepted by fp / fb / ep / eb / ed parameter selection and both "
-             "twist types at each built size, crossed with 69 consistency relations decided by sympy and the reference "
+             "twist types at each built size, crossed with 70 consistency relations decided by sympy and the reference "
              "models (primality, irreducibility, family polynomials, non-residues, roots of unity, Montgomery and "
              "divstep constants, generator / order / cofactor via [h*r]P = O on reference-lifted random points, "
              "endomorphism and GLV lattice, twist consistency, Frobenius constants, embedding degree, security level, "
